@@ -649,6 +649,11 @@ struct Runner {
     obs.push_back(ob);
     // the property's own clauses, checked on the real objects
     const std::string& n = o.name;
+    if ((n == "mkV" || n == "aV") && !threw && exists[o.v] && probe(o.v).idx != o.a) fail("value-construction-selected-another-alternative");
+    if ((n == "aC" || n == "rAC") && !threw && o.v != o.src) {
+      Probe a = probe(o.v), b = probe(o.src);
+      if (a.idx != b.idx || a.has != b.has || a.val != b.val || a.alt != b.alt || a.err != b.err) fail("copy-assignment-does-not-equal-its-source");
+    }
     if ((n == "mkC") && exists[o.v]) {
       Probe a = probe(o.v), b = probe(o.src);
       if (a.idx != b.idx || a.has != b.has || a.val != b.val || a.alt != b.alt || a.err != b.err) fail("copy-does-not-equal-its-source");
